@@ -150,9 +150,15 @@ class ClientAuth:
             oauth_body_hash = base64.b64encode(hashlib.sha1(body).digest())
             oauth_params.append(("oauth_body_hash", oauth_body_hash.decode("utf-8")))
 
-        uri, headers, body = self._render(uri, headers, body, oauth_params)
+        # render once to compute the signature, then render the original
+        # request again with the signature added; rendering the already
+        # rendered uri/body would duplicate the oauth parameters for the
+        # QUERY and BODY signature types
+        signed_uri, signed_headers, signed_body = self._render(
+            uri, headers, body, oauth_params
+        )
 
-        sig = self.get_oauth_signature(method, uri, headers, body)
+        sig = self.get_oauth_signature(method, signed_uri, signed_headers, signed_body)
         oauth_params.append(("oauth_signature", sig))
 
         uri, headers, body = self._render(uri, headers, body, oauth_params)
